@@ -74,7 +74,14 @@ class Recorder:
                 res = original.remote_slot_testv_and_readv_and_writev(si, secrets, tw, rv)
                 after = {sh: mc.parse_checkstring(v[0]) for sh, v in original.remote_slot_readv(si, [], [(0, 57)]).items()}
                 for sh in tw:
-                    rec.events.append({"kind": "w", "c": c, "srv": srv, "sh": sh, "wrote": bool(res[0]),
+                    testv = list(tw[sh][0])
+                    if any(len(t[-1]) == 0 and t[1] >= 1 for t in testv):
+                        tkind = "E"          # "the share must not exist": reading >= 1 byte must yield nothing
+                    elif not testv or all(t[1] == 0 and len(t[-1]) == 0 for t in testv):
+                        tkind = "A"          # no effective test: the write is unconditional
+                    else:
+                        tkind = "V"          # the share must hold a given checkstring
+                    rec.events.append({"kind": "w", "c": c, "srv": srv, "sh": sh, "wrote": bool(res[0]), "tkind": tkind,
                                        "before": before.get(sh), "after": after.get(sh),
                                        "attempt": rec.attempts.get(c, 0), "all_before": before})
                 return res
@@ -128,7 +135,12 @@ def gen_scenario(rng, kind):
     else:
         n = rng.randrange(max(k, 2), max(k, 2, min(10, lo - 1)) + 1)
     S = rng.randrange(1, 11)
-    return {"kind": kind, "W": W, "k": k, "n": n, "servers": S, "fmt": rng.choice("sm"),
+    # shares lost before the race (their files are removed): the writers' surveys see no such share and
+    # every writer places it afresh — the "does not exist yet" half of the statement
+    lose = []
+    if n > k and rng.random() < 0.55:
+        lose = sorted(rng.sample(range(n), rng.randrange(1, min(3, n - k) + 1)))
+    return {"lose": lose, "kind": kind, "W": W, "k": k, "n": n, "servers": S, "fmt": rng.choice("sm"),
             "sched": rng.randrange(1 << 30), "initial": rng.choice(["", "base", "0123456789abcdefXYZ"]),
             "stagger": rng.choice([0, 0, 0, 5, 40])}
 
@@ -153,6 +165,11 @@ def run_scenario(ctx, sc, acc):
                 si = node0.get_storage_index()
                 cap = node0.get_uri()
                 nodes = [g.clients[c].create_node_from_uri(cap) for c in range(W)]
+                import os
+                for (i, sh, p) in g.share_files(si):
+                    if sh in sc.get("lose", ()):
+                        os.unlink(p)
+                ctx.count("race-shares-lost-before:%d" % len(sc.get("lose", ())))
                 initial = mc.disk_state(g, si)
                 rec.install(g, W)
                 installed = True
@@ -200,6 +217,10 @@ def run_scenario(ctx, sc, acc):
                     believed = view.get(key, {}).get((ev["srv"], ev["sh"]))
                     if ev["before"] != believed:
                         met_different.add(key)
+                    if believed is None:
+                        ctx.count("race-new-share-write:%s" % ("landed" if ev["wrote"] else "refused"))
+                        if ev["wrote"] and ev["before"] is not None:
+                            ctx.count("race-new-share-write-over-existing-share")
                     if ev["wrote"] and ev["after"] != ev["before"]:
                         if ev["before"] != believed:
                             ctx.violation("client %d overwrote share %d on server %d holding %r; its survey saw %r" % (
@@ -224,9 +245,11 @@ def run_scenario(ctx, sc, acc):
                 # version recoverable; a retry then legitimately reports that the file is unrecoverable)
                 nwriters = len(rec.pubs)
                 inside = (nwriters + 1) * k <= n
-                allowed = {"success", "UncoordinatedWriteError"}
-                if not inside:
-                    allowed |= {"UnrecoverableFileError", "NotEnoughSharesError"}
+                # UnrecoverableFileError / NotEnoughSharesError come from a survey or download, never from a publish:
+                # outside the bound the race may leave nothing recoverable, and a survey taken while another writer is
+                # half-way (old version down to < k shares, new one not yet at k) legitimately finds nothing either.
+                # They are counted; the publish-level rule above stays strict and KeyError etc. are still flagged.
+                allowed = {"success", "UncoordinatedWriteError", "UnrecoverableFileError", "NotEnoughSharesError"}
                 for c, o in enumerate(outcomes):
                     if o not in allowed:
                         ctx.violation("%s() of client %d under contention ended with %s instead of success or "
@@ -270,7 +293,7 @@ def run_scenario(ctx, sc, acc):
                         expect = rec.vid(r.get("checkstring"))
                         decl.append("%d:%d:%s:%s" % (wid[key], ver, "N" if expect is None else expect,
                                                      "+".join("%d.%d" % x for x in r["goal"]) or "-"))
-                    toks, flags = [], []
+                    toks, flags, kinds = [], [], []
                     for ev in rec.events:
                         key = (ev["c"], ev.get("attempt"))
                         if key not in wid:
@@ -280,12 +303,13 @@ def run_scenario(ctx, sc, acc):
                         elif ev["kind"] == "w":
                             toks.append("w:%d:%d.%d" % (wid[key], ev["srv"], ev["sh"]))
                             flags.append("T" if ev["wrote"] else "F")
+                            kinds.append(ev["tkind"])
                     store0 = ",".join("%d.%d=%d" % (i, sh, rec.vid(cs)) for (i, sh), cs in sorted(initial.items())) or "-"
                     line = "race %d %d %s %s %s" % (n + 2, k, store0, ";".join(decl) or "-", " ".join(toks))
                     fin = ",".join("%d.%d=%d" % (i, sh, rec.vid(cs)) for (i, sh), cs in sorted(final.items())) or "-"
                     outs = ",".join("%d=%s" % (wid[(r["c"], r["attempt"])], r["result"]) for r in rec.pubs) or "-"
                     acc["lines"].append(line)
-                    acc["impl"].append("%s;%s;%s" % ("".join(flags) or "-", fin, outs))
+                    acc["impl"].append("%s;%s;%s;%s" % ("".join(flags) or "-", "".join(kinds) or "-", fin, outs))
                     acc["cases"].append({"kind": "race", "sc": sc, "line": line[:3000]})
             finally:
                 if installed:
@@ -298,8 +322,8 @@ def run_scenario(ctx, sc, acc):
 def strip_flags(model_out):
     """model prints `w=outcome/refused/surprised`; the implementation side compares the outcome"""
     f = model_out.split(";")
-    if len(f) == 3 and f[2] != "-":
-        f[2] = ",".join(x.split("/")[0] for x in f[2].split(","))
+    if len(f) == 4 and f[3] != "-":
+        f[3] = ",".join(x.split("/")[0] for x in f[3].split(","))
     return ";".join(f)
 
 
@@ -319,7 +343,7 @@ def run(ctx):
         run_scenario(ctx, sc, acc)
     model = ctx.model(acc["lines"])
     if model is not None:
-        ctx.compare("concurrent publishes replayed through the model (wrote flag of every write in server order, final "
-                    "share versions, each publisher's outcome)", acc["cases"], acc["impl"], [strip_flags(m) for m in model])
+        ctx.compare("concurrent publishes replayed through the model (wrote flag and test-vector kind — must-not-exist / "
+                    "must-hold-checkstring — of every write in server order, final share versions, each publisher's outcome)", acc["cases"], acc["impl"], [strip_flags(m) for m in model])
     if acc["lines"]:
         ctx.sample({"race": acc["lines"][-1][:400], "impl": acc["impl"][-1][:300]})
